@@ -30,18 +30,23 @@ CHECKS = {
         technique="Coq interleaving model + invariant and bisimulation proofs + controlled-schedule trace validation (yield hooks) on adapter and NATS transports + direct oracle",
         design="5/C01"),
     "C02": dict(
-        text="Coq theorems over every environment, type and value: round trip of the TBinary encoding directed by the declared type; exact "
-             "skipping of unknown fields; the field rules of the generated Write (required and default always, optional iff set, a union "
-             "exactly one, declared ids and wire types); rejection of a missing required field and of a multi-field union by Read; "
-             "Read (Write v) = v for every well-formed Go value of every declared struct, union, exception, args or result type. The "
-             "generator's typedef resolution is proved correct under a stated side condition and refuted in general (known finding). On every "
-             "run generated Write and Read of seeded multi-file programs (generated-code lab: the real frugal compiler, output compiled "
-             "against the runtime, reflection driver) are replayed on the same Coq definitions: binary compared byte- and value-exact; "
-             "compact and JSON through a schema-less reader/writer.",
-        note="Trusted: Coq kernel + vm_compute; the TBinary model is the specification of Apache Thrift's binary protocol; TCompact/TJSON exercised only "
-             "differentially; map keys on the wire assumed distinct, strings valid UTF-8; harness, reflection driver and Python oracle are test equipment. "
-             "Three generator compile failures are known findings.",
-        technique="executable Gallina codec model, nested-induction proofs, trace-validation judge, generated-code lab",
+        text="The TBinary and TCompact codecs as the generated Go drives them are Coq specifications (Model/ThriftBin.v, Model/ThriftCompact.v). "
+             "Proved for all environments, types and values (26 theorems, no axioms): round trip of generated Write/Read under both protocols "
+             "directed by the declared type; the field rules of the generated Write (required and default always, optional iff set, a union "
+             "exactly one, declared ids and wire types); rejection of a missing required field and of a multi-field union by Read; unknown "
+             "fields skipped exactly (with field-id deltas in step under compact); Skip exactness; zigzag and varint codecs; the compact reader "
+             "never panics; the compact encoding is injective and prefix-free. The generator's typedef resolution is proved correct under a "
+             "stated side condition and refuted in general (known finding). On every run generated Write and Read of seeded multi-file programs "
+             "(generated-code lab: the real frugal compiler, output compiled against the runtime, reflection driver) are replayed on the same Coq "
+             "definitions: bytes from generated Write under binary and compact compared byte-exact with the model (up to set/map order); generated "
+             "Read fed bytes from independent Python writers (canonical, liberal-but-valid, lying-type, truncated, unknown/missing/duplicated "
+             "fields) with value, error class and unread count replayed by Judge/JThriftBin and Judge/JThriftCompact; JSON through a schema-less "
+             "reader/writer.",
+        note="Trusted: Coq kernel + vm_compute; the TBinary/TCompact models are transcriptions of Apache Thrift v0.19.0 (outside /repo); TJSON has no Coq "
+             "specification (differential only); the 100 MB message limit, hostile container sizes and I/O errors other than EOF are not modelled; map keys on the "
+             "wire assumed distinct, strings valid UTF-8; harness, reflection driver and Python oracle are test equipment. Known findings: three generator compile "
+             "failures; an optional default taken from an init()-assigned constant makes IsSet compare with zero (C02-go-default-from-constant).",
+        technique="executable Gallina codec models (binary + compact, pending-bool state threaded), nested-induction proofs, trace-validation judges, generated-code lab",
         design="5/C02"),
     "C03": dict(
         text="8 Coq theorems (no axioms) over an executable model of the generated Go client method, FStandardClient Call/Oneway/processReply, "
@@ -72,9 +77,19 @@ CHECKS = {
              "(Panic results for out-of-range slices), so totality is a real theorem about the bounds checks. Tied to the code by "
              "a correspondence check that feeds boundary-value, exhaustive-small and mutated inputs to every real entry point "
              "(embedded NATS/STOMP brokers, httptest, net.Pipe) and replays them on the model; partial: the Thrift layer under "
-             "the header is a parameter assumed graceful.",
-        note="Trusted: Coq kernel + vm_compute; harness as test equipment; Apache Thrift readers assumed graceful (exercised only); messages < 2^31 bytes.",
-        technique="Coq totality proofs over a Go-partiality model + vm_compute trace-validation judge on all receiving entry points",
+             "the header is a parameter assumed graceful. The framing layer and the HTTP paths are inside the model: bufio.Reader + "
+             "TFramedTransport.Read (any state/buffer length: total, progress, frame size never above maxLength), readFrame/readRequestFrame "
+             "proved independent of how the connection chunks the stream and equal to the flat reference, the adapter read loop and "
+             "FSimpleServer.accept proved to end without crash on every stream/chunking/terminal error (the abstract adapter loop is a proved "
+             "refinement); fHTTPTransport's response path (every status/body, base64 transcribed with a round-trip proof) never panics and "
+             "accepts exactly well-formed replies; the handler's payload-limit header is total and enforced exactly. Tied by chunked delivery "
+             "through net.Pipe/TSocket, a scripted transport, a real TCP FSimpleServer, httptest servers returning arbitrary status/body, and a "
+             "differential check of the base64 transcription. 22 theorems, no axioms.",
+        note="Trusted: Coq kernel + vm_compute; harness as test equipment; Apache Thrift readers assumed graceful (exercised only); messages < 2^31 bytes; "
+             "a connection read returns >=1 byte or an error; net/http and the server-side streaming base64 decoder outside the model (abstract inputs); "
+             "encoding/base64 and bufio transcribed from the Go standard library and compared on every run.",
+        technique="Coq totality proofs over a Go-partiality model + chunking-independence refinement proofs (chunked -> flat stream) + vm_compute "
+                  "trace-validation judge on all receiving entry points and per Read call",
         design="5/C05"),
     "C06": dict(
         text="Coq theorems (no axioms) over the same interleaving model as C01: in EVERY state the single reader has an enabled step (hand over "
